@@ -30,6 +30,18 @@ class Inconclusive(Exception):
     pass
 
 
+def default_workers():
+    """All cores on an idle machine; a few when the machine is heavily shared (development)."""
+    if os.environ.get("VERIF_WORKERS"):
+        return int(os.environ["VERIF_WORKERS"])
+    try:
+        if os.getloadavg()[0] > 2 * NCPU:
+            return 4
+    except OSError:
+        pass
+    return NCPU
+
+
 def repo_path():
     return os.environ.get("VERIF_REPO", "/repo")
 
@@ -136,7 +148,7 @@ class Ctx:
                 for k, v in subst.items():
                     s = s.replace(k, str(v))
                 open(p, "w").write(s)
-        workers = workers or NCPU
+        workers = workers or default_workers()
         args = ["java", "-XX:+UseParallelGC", "-Xss64m"]
         args.append("-Xmx%s" % (heap or os.environ.get("VERIF_TLC_HEAP", "4g")))
         if dfs:
@@ -277,7 +289,7 @@ class Ctx:
         e["VERIF_TIER"] = self.tier
         if env:
             e.update({k: str(v) for k, v in env.items()})
-        args = ["go", "test"] + self._modfile_args() + ["-tags", tags, "-count=1", "-vet=off",
+        args = ["go", "test"] + (["-p", "4"] if default_workers() < NCPU else []) + self._modfile_args() + ["-tags", tags, "-count=1", "-vet=off",
                                                          "-timeout", "%ds" % (timeout + 30), "-run", run]
         if race:
             args.append("-race")
